@@ -376,7 +376,7 @@ func (e *Env) index(x, i SVal) SVal {
 		_ = key
 		_, hv, _ := e.p.mapHeaps(u)
 		hd, _, _ := e.p.mapHeaps(u)
-		in := Select(Select(e.cur.H(e.p, hd), x.T), coerce(i.T, sortOf(u.Key())))
+		in := And(Neq(x.T, IntLit(0)), Select(Select(e.cur.H(e.p, hd), x.T), coerce(i.T, sortOf(u.Key()))))
 		val := Select(Select(e.cur.H(e.p, hv), x.T), coerce(i.T, sortOf(u.Key())))
 		return SVal{T: Ite(in, val, zeroOf(u.Elem())), Typ: u.Elem()}
 	case *types.Pointer:
@@ -560,7 +560,8 @@ func (e *Env) call(x SCall) SVal {
 			efail("has() on non-map")
 		}
 		hd, _, _ := e.p.mapHeaps(mt)
-		return SVal{T: Select(Select(e.cur.H(e.p, hd), m.T), coerce(k.T, sortOf(mt.Key()))), Typ: tBool}
+		// a nil map has no key
+		return SVal{T: And(Neq(m.T, IntLit(0)), Select(Select(e.cur.H(e.p, hd), m.T), coerce(k.T, sortOf(mt.Key())))), Typ: tBool}
 	case "real":
 		argn(1)
 		return SVal{T: ToReal(e.elab(x.Args[0]).T), Typ: tMathReal}
